@@ -17,3 +17,40 @@ def load_local_findings(ck):
         if e["property"] == ck.pid and e.get("status") == "open" and e["id"] not in have:
             if all(k["id"] != e["id"] for k in ck._known):
                 ck._known.append(e)
+
+
+class Watchdog:
+    """A mutated jinja2 can make a single operation run (practically) forever, e.g. by
+    exponential recursion inside exception handlers.  The watchdog turns that into a
+    verdict: when the armed case does not finish within `seconds`, a VIOLATION with the
+    case is printed / written and the process exits with code 1.  A repeating timer is
+    used because the handler itself can hit the recursion limit when it fires deep in
+    the runaway recursion; it is simply tried again a second later."""
+
+    def __init__(self, ck, seconds=30):
+        import signal
+
+        self.ck, self.seconds, self.case = ck, seconds, None
+        self.signal = signal
+        signal.signal(signal.SIGALRM, self._fire)
+
+    def arm(self, case, what, fp):
+        self.case = (case, what, fp)
+        self.signal.setitimer(self.signal.ITIMER_REAL, self.seconds, 1.0)
+
+    def disarm(self):
+        self.signal.setitimer(self.signal.ITIMER_REAL, 0)
+        self.case = None
+
+    def _fire(self, signum, frame):
+        import os
+        import sys
+
+        if self.case is None:
+            return
+        case, what, fp = self.case
+        sys.setrecursionlimit(100000)
+        msg = f"{what}: did not finish within {self.seconds} s"
+        path = self.ck._write_replay(case, msg, fp)
+        os.write(1, f"VIOLATION property={self.ck.pid} replay={path}\n  {msg}\n".encode())
+        os._exit(1)
